@@ -256,11 +256,9 @@ func findMapLoops(fn *ssa.Function) []*mapLoop {
 			if !ok {
 				continue
 			}
-			l := &mapLoop{rng: r, header: nx.Block(), blocks: map[*ssa.BasicBlock]bool{}}
-			for _, b := range fn.Blocks {
-				if b == l.header || (reachableBlock(l.header, b) && reachableBlock(b, l.header)) {
-					l.blocks[b] = true
-				}
+			l := &mapLoop{rng: r, header: nx.Block(), blocks: naturalLoop(nx.Block())}
+			if l.blocks == nil {
+				l.blocks = map[*ssa.BasicBlock]bool{l.header: true}
 			}
 			out = append(out, l)
 		}
